@@ -6,6 +6,7 @@ emit -> text -> parse steps. Predicate: Kinds.PresIR mirrored on the real code (
 explicit defaults; loss only where documented; nothing invented or swapped).
 """
 import copy
+import json
 import itertools
 
 from .. import gen as G
@@ -95,8 +96,13 @@ class C05(AstKindProp):
             d = [x for x in d if not x.startswith("return entry lost")]
         return [{"what": "chain changed the interface", "chain": c["chain"], "diffs": d}] if d else []
 
+    def code_breaks(self, c, is_return, typ, code):
+        from ..astkinds import code_breaks_roundtrip
+
+        return any(code_breaks_roundtrip(k, is_return, typ, code, True) for k in c["chain"])
+
     def model_in_domain(self, c):
-        key = id(c)
+        key = json.dumps([c["chain"], c["inline"], c["ir"]], sort_keys=True)
         if getattr(self, "_dk", None) != key:
             op = {"op": "norm_chain", "kinds": [model_kind(k, c["inline"]) for k in c["chain"]], "ir": unify_none(c["ir"])}
             self._dv = "ok" in self._driver.run([op])[0]
@@ -109,7 +115,7 @@ class C05(AstKindProp):
     def classify(self, c, fl):
         ir = c["ir"]
         chain = c["chain"]
-        base = AstKindProp.classify(self, {"ir": ir, "opts": {}}, fl)
+        base = AstKindProp.classify(self, {"ir": ir, "opts": {}, "chain": chain}, fl)
         if base:
             return base
         for k in chain:
